@@ -1999,7 +1999,7 @@ def isin_array(*,
             pass
 
     assume_unique = array_is_unique and other_is_unique
-    func = np.in1d if array.ndim == 1 else np.isin
+    func = np.isin # np.in1d (the 1D-only spelling) no longer exists in NumPy 2.5; np.isin gives the same result for 1D arrays
 
     result = func(array, other, assume_unique=assume_unique) #type: ignore
     result.flags.writeable = False
